@@ -31,6 +31,7 @@ type CapSpec struct {
 	Concretize  int     `json:"concretize,omitempty"`
 	Live        string  `json:"live,omitempty"` // live solver: z3-new (default) | z3 | cvc5
 	NoMergeIn   []string `json:"nomerge_in,omitempty"` // functions (by name) whose branches are forked, not merged
+	FP          bool     `json:"fp,omitempty"`         // integer-valued symbolic floats may be mixed with non-integer constants (IEEE terms)
 }
 
 type TierSpec struct {
@@ -168,6 +169,7 @@ func mergeCaps(base CapSpec, o *CapSpec) CapSpec {
 		base.NoMergeIn = o.NoMergeIn
 	}
 	base.NoMerge = base.NoMerge || o.NoMerge
+	base.FP = base.FP || o.FP
 	return base
 }
 
@@ -196,6 +198,7 @@ func capsToConfig(c CapSpec, cs map[string]int) Config {
 		cfg.MaxConcretize = c.Concretize
 	}
 	cfg.NoMerge = c.NoMerge
+	cfg.FPMixed = c.FP
 	cfg.Live = c.Live
 	cfg.NoMergeIn = map[string]bool{}
 	for _, f := range c.NoMergeIn {
